@@ -14,6 +14,8 @@
 -/
 import Sky.C15.Lemmas
 import Sky.C15.Model
+import Sky.C15.AlgoEnc
+import Sky.C15.AlgoDec
 namespace Sky.Props.C15
 open Sky Sky.C15
 
@@ -315,17 +317,29 @@ theorem decodeAddr_total (H : Bytes → Bytes) (s : Bytes) : ∀ p, decodeAddr H
       · cases h
       · split at h <;> cases h
 
-/-! ### algorithm level (limb loops of base58.go)
+/-! ### algorithm level (limb loops of base58.go) -/
 
-Full statements (kept visible; NOT yet proved — the loop-invariant proofs are open, so at the algorithm
-level the property rests on the correspondence run, which compares Go, `encFast`/`decFast` and the
-specification on every input of the generator, exhaustively on short inputs): -/
+/-- **the limb-loop encoder (faithful model of `fastBase58EncodingAlphabet`: uint32 carry arithmetic with
+explicit wrap, the `high` short-cut, index faults as `panic`, buffer of n·138/100+1 digits) equals the
+big-integer definition on EVERY byte string and never faults.** Proof: Sky.C15.AlgoEnc (loop invariant
+`(value(buf[0..k))·256 + carry)·58^(size−k) + value(buf[k..))` constant, zero prefix below `high`,
+`256^n < 58^size`). -/
+theorem encFast_eq_spec (bs : Bytes) (hb : IsBytes bs) : encFast bs = .ok (enc58 bs) :=
+  Sky.C15.encFast_eq_spec bs hb
 
-/-- the limb-loop encoder equals the big-integer definition on every byte string (never faults) -/
-def encFast_eq_spec_stmt : Prop := ∀ bs : Bytes, IsBytes bs → encFast bs = .ok (enc58 bs)
-/-- the limb-loop decoder equals the big-integer definition on every string; the two
-"output number too big" errors are unreachable -/
-def decFast_eq_spec_stmt : Prop := ∀ s : Bytes, IsBytes s → decFast s = dec58 s
+/-- **the limb-loop decoder (faithful model of `fastBase58DecodingAlphabet`: `[]rune(str)` UTF-8 decoding,
+32-bit limbs with uint64 multiply-add, the carry and `zmask` "output number too big" tests, byte-wise
+extraction with wrapping `byte` arithmetic, leading-'1' restoration with the `start < 0` clamp, every index
+fault as `panic`) equals the big-integer definition on EVERY string**; in particular the two "too big"
+errors and all faults are unreachable. Proof: Sky.C15.AlgoDec (limbs hold exactly the base-58 value read so
+far, which stays below 58^k ≤ 256^n; `zmask` test by `and_high_mask`; a byte ≥ 128 always yields a rune > 127). -/
+theorem decFast_eq_spec (s : Bytes) : decFast s = dec58 s := Sky.C15.decFast_eq_spec s
+
+/-- hence everything proved about the specification holds for the loop models, e.g. canonicity: -/
+theorem decFast_canonical (s bs : Bytes) (h : decFast s = .ok bs) : encFast bs = .ok s := by
+  rw [decFast_eq_spec] at h
+  have ⟨h1, h2, _⟩ := enc_dec s bs h
+  rw [encFast_eq_spec bs h2, h1]
 
 /-- what IS proved about the encoder loop: the arithmetic fact that makes its buffer large enough
 (`size_suffices` above), and that the model's `uint32` arithmetic cannot wrap: one step keeps
